@@ -326,6 +326,46 @@ func init() {
 			plush.CacheEnabled = false
 			plush.VerifCacheReset()
 		}
+		// ONE parsed template (kept, cloned, served by the cache) executed alternately with DIFFERENT data - first
+		// with data in which the names it consults are absent (tolerated), then with data that has them: every
+		// execution gives what a fresh parse gives for that data
+		{
+			datas := []map[string]interface{}{{}, {"name": "Bob", "n": 2}, {"name": nil}, {"name": "", "n": 0}, {"name": "Al", "n": 5}}
+			for _, tm := range []string{`<%= if (name == nil) { %>anonymous<% } else { %>known<% } %>`, `<%= if (name) { %>hi <%= name %><% } else { %>nobody<% } %>|<%= !n %>`,
+				`<%= name || "none" %>/<%= if (n && name) { %>both<% } %>`, `static text only`, `<%= 1 + 2 %><%= "lit" %>`, `<% let f = fn() { return name } %><%= f() == nil %>`} {
+				fresh := make([]string, len(datas))
+				for i, d := range datas {
+					out, err := plush.Render(tm, plush.NewContextWith(copyMap(d)))
+					fresh[i] = fmt.Sprint(out, "|", err)
+				}
+				t, err := plush.NewTemplate(tm)
+				if err != nil {
+					continue
+				}
+				for _, cache := range []bool{false, true} {
+					plush.CacheEnabled = cache
+					plush.VerifCacheReset()
+					for step := 0; step < 2*len(datas); step++ {
+						i := step % len(datas)
+						out, err := t.Exec(plush.NewContextWith(copyMap(datas[i])))
+						got := fmt.Sprint(out, "|", err)
+						out2, err2 := plush.Render(tm, plush.NewContextWith(copyMap(datas[i])))
+						got2 := fmt.Sprint(out2, "|", err2)
+						out3, err3 := t.Clone().Exec(plush.NewContextWith(copyMap(datas[i])))
+						got3 := fmt.Sprint(out3, "|", err3)
+						e.rep.Evaluations += 3
+						e.Count("alternating-data")
+						if got != fresh[i] || got2 != fresh[i] || got3 != fresh[i] {
+							e.Violate("c13-nondeterministic", fmt.Sprintf("%q with data %v (step %d, cache %v): kept template %q, Render %q, clone %q; a fresh parse gives %q", tm, datas[i], step, cache, got, got2, got3, fresh[i]), map[string]interface{}{"tmpl": tm, "step": step})
+							break
+						}
+					}
+				}
+				plush.CacheEnabled = false
+				plush.VerifCacheReset()
+				e.Distinct("alt/" + tm)
+			}
+		}
 		// values allocated by the execution itself and printed by address (a pointer nested in a slice handed to
 		// inspect, or quoted in an error text): two executions of one template with equal data differ
 		// (known finding c13-address-in-output)
@@ -374,4 +414,12 @@ func firstKey(m map[string]bool) string {
 		return ""
 	}
 	return ks[0]
+}
+
+func copyMap(m map[string]interface{}) map[string]interface{} {
+	c := map[string]interface{}{}
+	for k, v := range m {
+		c[k] = v
+	}
+	return c
 }
